@@ -38,7 +38,7 @@ def sim_bounds(entry, c, tier):
         c['max_expo'] = e + 1
         c['tmax'] = 'inf'
     if entry == 'fast_SIS':
-        c['max_expo'] = 2 * e + 1
+        c['max_expo'] = 2 * e - 1
         c['tmax'] = 'sym'
     if entry == 'fast_nonMarkov_SIS':
         c['max_infections'] = e
@@ -47,8 +47,10 @@ def sim_bounds(entry, c, tier):
     if entry in DISC:
         c['tmax'] = 'steps:%d' % e
     if entry in ('fast_SIR', 'fast_nonMarkov_SIR', 'fast_nonMarkov_SIS'):
-        c['zero_delay'] = True
-        c['ties'] = True
+        # ties between events allowed; a zero duration allowed; delays strictly positive (a zero delay from an
+        # initial node makes "susceptible immediately before" unobservable: the history starts at tmin)
+        c['zero_duration'] = True
+        c['ties'] = (entry != 'fast_SIR')    # (for fast_SIR the flag would only make its exponential draws >= 0)
 
 
 def configs(tier):
@@ -65,7 +67,7 @@ def configs(tier):
             for I0, R0 in graphs.automorphism_reduced_ics(g, with_recovered=sir):
                 if tier == 'quick' and len(R0) > 1:
                     continue
-                if tier == 'quick' and entry == 'fast_nonMarkov_SIS' and len(I0) > 1 and g == 'P3':
+                if tier == 'quick' and entry in ('fast_nonMarkov_SIS', 'fast_SIS') and len(I0) > 1 and g == 'P3':
                     continue
                 c = dict(entry=entry, graph=g, I0=I0, R0=R0, full=True, tags=[g] + (['R0'] if R0 else []))
                 sim_bounds(entry, c, tier)
